@@ -83,7 +83,7 @@ pub struct Written {
 /// Checks (always): return value of the code write = model length; image = model image.
 pub fn write_case(prop: &str, c: &CodeCase, rep: &mut Report, judge_image: bool, judge_ret: bool) -> Option<Written> {
     let e = c.e;
-    let mut rng = Rng::derive(c.seed, c.offset as u64 * 31 + c.value);
+    let mut rng = Rng::derive(c.seed, (c.offset as u64 * 31).wrapping_add(c.value));
     let mut h = make_writer(WCfg { e, w: c.w, be: WBackend::VecOwned });
     let mut mb: Bits = vec![];
     let mut left = c.offset;
